@@ -99,6 +99,8 @@ func runC18(c *Ctx) {
 					case e.Kind == "call" && strings.HasPrefix(e.Name, "sync/atomic."):
 						ops = append(ops, e)
 					case e.Kind == "call" && e.Name == "typ.Zero":
+					case e.Kind == "mkclosure": // forming a function value touches nothing shared
+					case e.Kind == "store" && e.Addr.Op == "alloc": // a cell of this call (a variable captured by a closure)
 					default:
 						ok, why = false, "unexpected effect "+e.String()
 					}
@@ -247,7 +249,9 @@ func runC18(c *Ctx) {
 					isNewCall := ret.Op == "call" && ret.Sym == "dyn" && newField != nil && isFieldLoad(ret.Args[0], newField, recv)
 					switch newNil {
 					case "==":
-						if !isZeroish(ret) {
+						// the first component of a failed comma-ok assertion is the zero value of the asserted type
+						failedAssert := ret.Op == "extract" && ret.N == 0 && ret.Args[0].Op == "tassert" && ret.Args[0].Sym == "commaok" && ret.Args[0].Args[0].Key() == got.Key()
+						if !isZeroish(ret) && !failedAssert {
 							ok, why = false, "New is nil but the zero value is not returned"
 						}
 					case "!=":
